@@ -1,3 +1,4 @@
+import LocustModel.Gen.RoutingConsts
 /-
   C15 model: how the columns of a partition are distributed over files and found again.
 
@@ -16,6 +17,9 @@
   (trusted fact, exercised by the harness with 1/2/3/4-byte characters).  Lengths that Rust measures in bytes are
   computed with `utf8Len`.  SHA-256 of the UTF-8 bytes of a name is the parameter `Hn`; the Unicode predicate
   `is_alphanumeric && is_lowercase` on non-ASCII characters is the parameter `U`.
+  The numeric literals of the Rust code (the 64-byte bound of `is_filesystem_safe`, the 189-byte truncation of
+  `sanitize_table_name`) are NOT written here: they come from `Gen/RoutingConsts.lean`, which `tools/extract.py`
+  regenerates from the Rust source on every run, so the theorems are about the constants the code has now.
   Core only (no Mathlib): the driver links this file.
 -/
 namespace LM.Routing
@@ -47,7 +51,7 @@ def safeChar (U : Nat → Bool) (c : Nat) : Bool :=
 
 /-- `is_filesystem_safe`. -/
 def isFilesystemSafe (U : Nat → Bool) (n : Name) : Bool :=
-  decide (byteLen n ≤ 64) && n.all (safeChar U)
+  decide (byteLen n ≤ LM.Gen.RoutingConsts.fsSafeMaxBytes) && n.all (safeChar U)
 
 def hexDigit (n : Nat) : Nat := if n < 10 then 48 + n else 87 + n
 
@@ -163,8 +167,13 @@ def trimStart : Name → Name
   | [] => []
   | c :: cs => if c = 45 ∨ c = 46 then trimStart cs else c :: cs
 
+/-- `if name.len() > 189 { name = name[..189].to_string() }` with the two literals taken from the source
+    (the name is pure ASCII at this point, so bytes = characters). -/
+def truncName (n : Name) : Name :=
+  if n.length > LM.Gen.RoutingConsts.tableNameTruncAbove then n.take LM.Gen.RoutingConsts.tableNameTruncTo else n
+
 /-- The cleaned name before the "was it modified" test. -/
-def cleanName (t : Name) : Name := (trimStart (t.flatMap lowerRetain)).take 189
+def cleanName (t : Name) : Name := truncName (trimStart (t.flatMap lowerRetain))
 
 /-- `sanitize_table_name` (`if name != table_name || name.is_empty()`: since fix b1e0b04 the empty table name gets
     the hash form as well). -/
